@@ -163,6 +163,8 @@ pub fn oracle(case: &Case, res: &SpResult, panics: &[String]) -> Outcome {
     // ---- never crash
     if let Some(p) = panics.iter().find(|p| p.contains("[origin:lib]") || p.contains("@ /repo/")) {
         let loc = p.split(" @ ").nth(1).unwrap_or("").split(' ').next().unwrap_or("").replace("/repo/", "");
+        // (dependencies: crate directory and file only, not the registry path)
+        let loc = match loc.find("/registry/src/") { Some(_) => loc.rsplit('/').take(4).collect::<Vec<_>>().into_iter().rev().collect::<Vec<_>>().join("/"), None => loc };
         viol!(format!("panic@{loc}"), "the library panicked: {p}");
     }
     if res.wedge {
